@@ -20,6 +20,7 @@ type scenOpts struct {
 	prefail      bool  // may pre-populate the failure cache
 	postActions  bool  // generated post-return actions (buffer overwrite with another key, cancel)
 	builderTTL   bool
+	ttlCells     bool // caller may pass an explicit zero TTL cell; contexts may carry deadlines / be cancelled early
 	failPct      int
 }
 
@@ -131,6 +132,15 @@ func drawScenario(c *Case, o scenOpts) *scenario {
 			for j := 0; j < nb; j++ {
 				g.builderTTL = append(g.builderTTL, []time.Duration{0, 10 * time.Minute, 3 * time.Hour, -1, time.Nanosecond}[c.Pick("builderTTL", 5)])
 			}
+		}
+
+		if o.ttlCells {
+			if g.ttl == 0 {
+				g.ttlCell = c.Bool("zero-cell")
+			}
+
+			g.cancelBefore = c.Weighted("cancel-before", 5, 1) == 1
+			g.deadline = c.Weighted("deadline", 3, 1) == 1
 		}
 
 		if o.postActions {
